@@ -137,7 +137,10 @@ theorem addBlock_cfg (env : Env L) (s s' : Node L) (b : Block) (r : Option Err)
   rcases hrest with ⟨_, _, rfl, _⟩ | ⟨_, hbody⟩
   · exact h1
   cases r with
-  | some e => rw [bodyStep_err env s1 s' b e hbody]; exact h1
+  | some e =>
+    rcases bodyStep_err env s1 s' b e hbody with rfl | ⟨_, _, rfl⟩
+    · exact h1
+    · exact h1
   | none =>
     obtain ⟨l', _, _, rfl⟩ := storeBlock_ok env s1 s' b (bodyStep_none_store env s1 s' b hbody)
     exact h1
@@ -173,7 +176,8 @@ def run (env : Env L) (s : Node L) (ops : List Op) : Node L := ops.foldl (step e
 /-- C06: along every history of AddBlock / AddHeaders calls (any blocks, any header lists, accepted or
 rejected) from a state satisfying the invariant — e.g. the node holding only the genesis header —
 the invariant holds. Hypothesis: the header hash determines the hashable fields (no collisions). -/
-theorem inv_run_aux (env : Env L) (hcoll : ∀ x y : Header, x.hash = y.hash → SameCore x y)
+theorem inv_run_aux (env : Env L) (hroot : ∀ l b, env.rootOf (env.spoil l b) = env.rootOf l)
+    (hcoll : ∀ x y : Header, x.hash = y.hash → SameCore x y)
     (s : Node L) (hskip : s.cfg.skip = false) (hinv : Inv env s) (ops : List Op) :
     Inv env (run env s ops) ∧ (run env s ops).cfg = s.cfg := by
   induction ops generalizing s with
@@ -182,7 +186,7 @@ theorem inv_run_aux (env : Env L) (hcoll : ∀ x y : Header, x.hash = y.hash →
     have hstep : Inv env (step env s op) ∧ (step env s op).cfg = s.cfg := by
       cases op with
       | block b =>
-        refine ⟨inv_addBlock_aux env s _ b _ hskip hinv ⟨fun kh _ hh => hcoll kh b.hdr hh,
+        refine ⟨inv_addBlock_aux env hroot s _ b _ hskip hinv ⟨fun kh _ hh => hcoll kh b.hdr hh,
           fun x _ y _ hxy => (hcoll x y hxy).2.2.2.2.1⟩ rfl, addBlock_cfg env s _ b _ hinv.ne rfl⟩
       | headers hs =>
         have hv : (!s.cfg.skip) = true := by simp [hskip]
